@@ -196,6 +196,30 @@ def tlc(module, cfg, workers=None, timeout=600, env=None, simulate=None, depth=N
     return TLCResult(rc, out, time.time() - t0)
 
 
+def apalache(module, inv, init='Init', nxt='Next', cinit='CInit', length=0, timeout=600):
+    """symbolic check with Apalache (apalache-mc, SMT): returns dict(outcome = 'NoError' | 'Error' | 'unavailable' | 'failed', ...).
+    Used for unbounded-in-the-integers strengthening of invariants TLC checks on a small space; a missing / failing tool is
+    reported as such in the evidence and never turns into a verdict."""
+    exe = shutil.which('apalache-mc')
+    if not exe:
+        return {'outcome': 'unavailable'}
+    out = scratch('apalache')
+    t0 = time.time()
+    try:
+        p = subprocess.run([exe, 'check', '--init=' + init, '--next=' + nxt, '--inv=' + inv, '--cinit=' + cinit,
+                            '--length=%d' % length, '--out-dir=' + out, os.path.basename(module)],
+                           cwd=os.path.dirname(module), stdout=subprocess.PIPE, stderr=subprocess.STDOUT, text=True, timeout=timeout)
+    except subprocess.TimeoutExpired:
+        return {'outcome': 'failed', 'why': 'timeout'}
+    finally:
+        shutil.rmtree(out, ignore_errors=True)
+    m = re.search(r'The outcome is: (\w+)', p.stdout)
+    res = {'outcome': m.group(1) if m else 'failed', 'invariant': inv, 'wall_s': round(time.time() - t0, 1)}
+    if res['outcome'] not in ('NoError', 'Error'):
+        res['why'] = p.stdout[-300:]
+    return res
+
+
 def tlc_must_pass(module, cfg, what, **kw):
     r = tlc(module, cfg, **kw)
     if r.rc == 124:
